@@ -102,7 +102,8 @@ BREAKING = [
     ("c17-app-name-fill", "C17", "src/app.rs", "        if end < 12 {\n            buf[end..12].fill(0);\n        }", "        if end < 11 {\n            buf[end..12].fill(0);\n        }"),
     ("c17-rpsi-fill", "C17", "src/feedback/rpsi.rs", "        while idx < end {\n            buf[idx] = 0;\n            idx += 1;\n        }", "        while idx + 1 < end {\n            buf[idx] = 0;\n            idx += 1;\n        }\n        idx = end;"),
     ("c17-sdes-chunk-fill", "C17", "src/sdes.rs", "        let end = pad_to_4bytes(idx + 1);\n        if end > idx {\n            buf[idx..end].fill(0);\n        }", "        let end = pad_to_4bytes(idx + 1);\n        if end > idx {\n            buf[idx] = 0;\n        }"),
-    ("c17-write-before-check", "C17", "src/compound.rs", "    fn write_into_unchecked(&self, buf: &mut [u8]) -> usize {\n        write_header_unchecked::<Unknown>(self.padding, self.count, buf);\n        buf[1] = self.type_;", "    fn write_into_unchecked(&self, buf: &mut [u8]) -> usize {\n        write_header_unchecked::<Unknown>(self.padding, self.count, buf);\n        buf[1] |= self.type_;"),
+    ("c17-clear-on-too-small", "C17", "src/lib.rs", "        if buf.len() < req_size {\n            return Err(RtcpWriteError::OutputTooSmall(req_size));\n        }\n\n        Ok(self.write_into_unchecked(&mut buf[..req_size]))\n    }\n}\n\nimpl<T: RtcpPacketWriter> RtcpPacketWriterExt", "        if buf.len() < req_size {\n            if buf.len() > 17 {\n                buf[17] = 0;\n            }\n            return Err(RtcpWriteError::OutputTooSmall(req_size));\n        }\n\n        Ok(self.write_into_unchecked(&mut buf[..req_size]))\n    }\n}\n\nimpl<T: RtcpPacketWriter> RtcpPacketWriterExt"),
+    ("c17-unknown-type-or", "C17", "src/compound.rs", "    fn write_into_unchecked(&self, buf: &mut [u8]) -> usize {\n        write_header_unchecked::<Unknown>(self.padding, self.count, buf);\n        buf[1] = self.type_;", "    fn write_into_unchecked(&self, buf: &mut [u8]) -> usize {\n        let stale = buf[1];\n        write_header_unchecked::<Unknown>(self.padding, self.count, buf);\n        buf[1] = self.type_ | (stale & 1);"),
     # C20
     ("c20-reason-owned-sources", "C20", "src/bye.rs", "            padding: self.padding,\n            sources: self.sources,\n            reason: reason.into().into_owned().into(),", "            padding: self.padding,\n            sources: Vec::new(),\n            reason: reason.into().into_owned().into(),"),
     ("c20-into-owned-type", "C20", "src/sdes.rs", "        SdesItemBuilder {\n            type_: self.type_,\n            prefix: self.prefix.into_owned().into(),", "        SdesItemBuilder {\n            type_: if self.prefix.is_empty() { self.type_ } else { SdesItem::PRIV },\n            prefix: self.prefix.into_owned().into(),"),
